@@ -24,7 +24,7 @@ pub static DEF: PropertyDef = PropertyDef {
     exhaustive_note: "none (sampled programs and histories)",
     generate,
     execute,
-    must_hit: &["fault.story_fault.fired", "fault.wrap_line.checked", "fault.zero_site.reached", "fault.reset_after_error.fired"],
+    must_hit: &["fault.story_fault.fired", "fault.wrap_line.checked", "fault.zero_site.reached", "fault.reset_after_error.fired", "fault.short_eval_mid_expression.fired"],
     timeout_s: 30,
     hang_class: None,
     sub_builds: &[("dev", 5000, 40000, true)],
@@ -240,12 +240,17 @@ fn execute(case: &Case) -> CaseResult {
     };
     let mut any_error = false;
     let mut digest_src: Vec<String> = Vec::new();
+    // boundaries at which the main story rests in the middle of an expression (operands on the evaluation stack)
+    let mut mid_expression: Vec<usize> = Vec::new();
     for (i, op) in case.ops.iter().enumerate() {
         let mark = h.log.borrow().len();
         let r = h.apply(op);
         if h.fuel_out {
             res.discard = Some("fuel".into());
             return res;
+        }
+        if mid_expression.len() < 3 && matches!(op, Op::Continue | Op::ContinueMax) && h.alive() && h.observe().eval_stack != "[]" {
+            mid_expression.push(i + 1);
         }
         digest_src.push(format!("{i}:{}", r.class()));
         match &r {
@@ -306,6 +311,44 @@ fn execute(case: &Case) -> CaseResult {
     }
     res.stats.mark("distinct_logs", crate::rng::fnv(&digest_src.join("|")));
     res.digest = crate::rng::fnv(&h.log_render().join("\n")) | 1;
+    // a host that evaluates a function with too few arguments while the main story rests in the middle of
+    // an expression: the function's parameters take the story's operands. Whatever the story does with what
+    // is left on the stack afterwards, it must not panic.
+    let short_funcs: Vec<String> = super::c16::gen_functions(prog).into_iter().filter(|f| f.1 >= 1).map(|f| f.0).take(2).collect();
+    for &p in &mid_expression {
+        for f in &short_funcs {
+            let Ok(mut x) = Host::new(prog, &case.host) else { continue };
+            let mut ok = true;
+            for op in &case.ops[..p] {
+                let r = x.apply(op);
+                if r.is_panic() || x.fuel_out {
+                    ok = false;
+                    break;
+                }
+            }
+            if !ok || !x.alive() {
+                continue;
+            }
+            res.stats.inc("fault.short_eval_mid_expression.fired");
+            let mut script = vec![Op::Eval { name: f.clone(), args: vec![] }];
+            script.extend(case.ops[p..].iter().take(4).cloned());
+            script.extend([Op::Continue, Op::Choose(0), Op::Continue]);
+            for (k, op) in script.iter().enumerate() {
+                let r = x.apply(op);
+                if x.fuel_out {
+                    break;
+                }
+                if let Res::Panic(st, m) = &r {
+                    res.fail(Violation::new("C04", "panic", st, &crate::host::norm_msg(m)).with(
+                        format!("after {} op(s): Eval({f}, no arguments) with operands of the main story pending, then step {k} {}", p, op.short()),
+                        "Err or handler call".into(),
+                        r.brief(),
+                    ));
+                    break;
+                }
+            }
+        }
+    }
     // recovery: after any reported error a reset makes the story play like a fresh one
     if any_error && h.alive() {
         match h.apply(&Op::Reset) {
